@@ -106,6 +106,128 @@ CLAIMS["C05"] = (
     TECH + "; differential check of the three line classifiers against a reference on fully symbolic short lines",
 )
 
+ORACLE_NOTE = ("Number oracle: str::parse::<f64|f32|i32|u8> is replaced (Kani stub) by 'parse error or ANY value of the type', "
+               "consistent per token -- an over-approximation of std that loses only the digits<->value relation (std's contract); "
+               "core::slice::memchr::{memchr,memrchr} replaced by the naive loop. Text of every line is concrete (template), numbers symbolic. "
+               "Counterexamples are replayed natively WITHOUT stubs: the tokens are replaced by the decimal text of the solver's values.")
+
+CLAIMS["C03"] = (
+    "Decoder side of the edit round trip for metadata text fields: the encoder writes 'Key: value' (format strings of "
+    "encode.rs); for EVERY ASCII value of the stated length without line breaks or surrounding white space -- colons, "
+    "'//', commas, quotes, brackets included -- Metadata::parse_metadata on 'Key: ' + value stores exactly the value in "
+    "exactly that key's field. The check found defect D1 (value cut at its first colon), repaired by a fix commit.",
+    "Bound: value length <= 3 bytes for Title, <= 2 for Tags / ArtistUnicode (each key goes through the same "
+    "KeyValue::parse + clone_into); ASCII only. Outside: numeric / flag / bookmark / colour / break edits (need the "
+    "encoder's number formatting, not executable: core::fmt runs out of memory), file names, 'every other field "
+    "unchanged' at whole-map level, the encoder itself. Stubs: memchr/memrchr naive loop.",
+    "DESIGN.md §5 C03",
+    TECH + "; fully symbolic value text through the real key/value parser",
+)
+CLAIMS["C10"] = (
+    "Transcoding level: Encoding::from_bom on every byte string <= 4 bytes equals the BOM table of the statement; the "
+    "UTF-16 unit iterators pair bytes in the stated order and drop an odd trailing byte for every input <= 5 bytes; "
+    "Encoding::decode for UTF-16LE/BE on one arbitrary code unit (+ arbitrary odd byte) equals a reference transcoder "
+    "written from the Unicode standard (every BMP scalar, lone surrogates -> U+FFFD).",
+    "Bound: 1 code unit (2 units and the UTF-8 lossy path are attempted in the thorough tier only: they run out of "
+    "memory at 8-20 GB in String growth / run_utf8_validation). Outside: everything in Decoder::read_line (LF search on "
+    "raw bytes, the extra byte after LF in UTF-16LE) -- not executable under CBMC (out of memory up to 40 GB); the "
+    "defects D4/D5 observed natively there are NOT found by this check (DESIGN.md §6); texts longer than the bound.",
+    "DESIGN.md §5 C10",
+    TECH + "; differential check against a reference transcoder on fully symbolic code units",
+)
+CLAIMS["C11"] = (
+    "For every recognised key of General, Editor, Metadata, Difficulty (one template line per key) and for break, "
+    "background/video/sprite and colour records: from an ARBITRARY state of the section, the line sets exactly its "
+    "documented field by the documented conversion for EVERY value of the field's numeric type (and for parse "
+    "failure): +-(2^31-1) limit in the field's own type, NaN rejected, flag true only for 1, clamps [0.4,3.6] / "
+    "[0.5,8], approach rate follows overall difficulty until set, break end >= start, R,G,B[,A] with ignored alpha, "
+    "2 or 5 colour fields rejected, named colour overrides, unknown keys ignored, invalid values leave every field "
+    "untouched; background precedence over 12 concrete lines.",
+    "Bound: one line per harness from an arbitrary section state (inductive step over lines); template corpus = one "
+    "line shape per key (padded / comment-suffixed variants for some). " + ORACLE_NOTE + " Outside: decimal syntax "
+    "accepted by std; Bookmarks lists (collect() over symbolic data did not finish); file-name cleaning on arbitrary text.",
+    "DESIGN.md §5 C11",
+    TECH + "; number-oracle harness per key vs. table-driven reference",
+)
+CLAIMS["C12"] = (
+    "parse_timing_points + add_control_point + flush + the four ControlPoint::add impls + TimingPoints::from(state) "
+    "against a reference model of the legacy semantics evaluated on the same symbolic values: groups by time, last "
+    "inherited line wins / first timing-change line wins per kind, redundancy against the active point, replacement at "
+    "equal time, clamps [6,60000] / [0.1,10] / [0.01,10] (taiko, mania only) / [0,100], NaN only on inherited lines "
+    "(ticks off), defaults from [General]; the four lists must be element-wise equal and strictly increasing.",
+    "Bound: 1 line (4 shapes) and 2 lines at one time (quick); 2 lines at different / out-of-order times (thorough); "
+    "times from {-5,0,10,20} (concrete tokens); beat length from an 18-value alphabet incl. 0, -0, NaN, +-3e9, inf, "
+    "-1e-300 (the velocity division 100/-b is computed by code and reference: two full-width dividers do not finish); "
+    "signature, bank, custom bank, volume, flags: every i32 or parse error; mode / default bank / default volume "
+    "symbolic. " + ORACLE_NOTE + " Outside: times closer than f64::EPSILON, +-0 (D8, see C13), > 2 lines.",
+    "DESIGN.md §5 C12",
+    TECH + "; differential check against a reference model of the legacy state machine",
+)
+CLAIMS["C14"] = (
+    "parse_hit_objects on circle lines (x, y: every f32; time: every f64; type: every i32 with the circle flag; "
+    "concrete hit-sound number; optional extras with every i32) from an arbitrary predecessor, and on six-field lines "
+    "with the type EVERY i32: truncation within +-131072, kind precedence circle > slider > spinner > hold, unknown "
+    "kinds rejected, combo offset only with new-combo, first-object / after-spinner rule, spinner / hold durations "
+    "max(0, .), remembered type, the documented sample list; convert_path_str (hook) on single typed segments "
+    "'<P|B|L|C>|x:y|x:y': origin carries the type, collinear perfect curve -> linear, offsets, rejection leaves no "
+    "control points.",
+    "Bound: template corpus above; hit-sound numbers 6 and 10 concrete in the quick tier (symbolic in thorough: the "
+    "sample Vec's length must stay concrete for CBMC); no repeated consecutive path points. " + ORACLE_NOTE +
+    " Outside: full slider lines and multi-segment paths (explicit second type letter) -- not executable (out of "
+    "memory / no result, DESIGN.md §5 C06/C14), hence defect D2 is NOT found; repeat counts, node samples, file names.",
+    "DESIGN.md §5 C14",
+    TECH + "; number-oracle harness vs. independent reference parser",
+)
+CLAIMS["C15"] = (
+    "Kernels of the map-level processing: post_process_breaks (hook) on <= 3 objects of any kind with arbitrary sorted "
+    "f64 times and <= 2 arbitrary chronological breaks vs. the rule 'first object after a break's end starts a combo'; "
+    "SamplePoint::apply on an arbitrary sample x arbitrary sample point vs. the stated defaults rule; the "
+    "precision-adjusted beat length (velocity formula with per-mode clamps) over an alphabet.",
+    "Bound: <= 3 objects, <= 2 breaks; velocity formula over 8 slider velocities x 4 beat lengths x 4 modes (alphabet, "
+    "not all f64: symbolic division does not finish). Outside: stable sort order (after sort_by on symbolic times CBMC "
+    "does not finish), whole-file shift invariance, slider node timing, the 5 ms lookup beyond C13's lookup clause.",
+    "DESIGN.md §5 C15",
+    TECH + "; kernel harnesses through forwarding hooks",
+)
+CLAIMS["C06"] = (
+    "One-step form: for every section parser and every template of the corpus, when the parser returns Err the "
+    "section state is bit-for-bit what it was before the line (every field, incl. scratch buffers curve_points / "
+    "vertices / point_split and the pending timing group as observed through the final lists). Served by the "
+    "C11/C12/C14 harnesses, whose oracle may fail ANY individual number token, so failure after partial progress is "
+    "explored at every field position.",
+    "Bound: the template corpus of C11/C12(1 line)/C14; arbitrary pre-state for key/value sections, initial or "
+    "arbitrary-predecessor state for hit objects. Outside: multi-segment slider paths -- the second segment failing "
+    "after the first was committed is exactly defect D2, observed natively and NOT reachable by this check "
+    "(DESIGN.md §6); lines outside the corpus.",
+    "DESIGN.md §5 C06",
+    TECH + "; rejection branch of the number-oracle harnesses",
+)
+CLAIMS["C07"] = (
+    "All nine provided types share the generic driver; they differ in per-section delegation and in From<State>. "
+    "Per line (same oracle interpretation): the full decoder's state and each specialised decoder's state end with "
+    "equal shared fields and equal acceptance for Difficulty, General, Editor, Metadata, Colours and Events lines, "
+    "and decoders that do not own a section ignore it; Beatmap::from(BeatmapState) copies every numeric / flag field "
+    "(all symbolic) of General, Difficulty, Editor, Metadata and the version.",
+    "Bound: 2 templates per shared section; conversions with empty object / control-point lists. " + ORACLE_NOTE +
+    " Outside: timing-point and hit-object line delegation (same one-line forwarding, not yet harnessed), "
+    "should_skip_line equality across types beyond C05's default-method check, lines outside the corpus.",
+    "DESIGN.md §5 C07",
+    TECH + "; two-run (full vs. specialised decoder) equality under one oracle interpretation",
+)
+CLAIMS["C01"] = (
+    "Totality, unit-wise: every harness of C11/C12/C14 runs a real line parser on EVERY value of every numeric field "
+    "(NaN, +-inf, i32::MIN, parse errors) with all of Kani's checks on (panics, unwrap, index, overflow, pointer "
+    "validity, unsafe preconditions); Decoder::new under arbitrary chunk schedules (C08), from_bom / UTF-16 decode on "
+    "arbitrary bytes (C10); the unsafe guards NonZeroU32::new_unchecked in HitSampleInfo::new and SamplePoint::apply "
+    "for every i32, the raw-slice re-borrow in point_split (path harnesses).",
+    "Bound: the union of the bounds of the harnesses listed (template corpus, <= 5 raw bytes). Outside: "
+    "Decoder::read_line, the generic driver loop and any composition over whole files (not executable under CBMC), so "
+    "'an error can only originate from the reader' and defect D5 are not decided; the UTF-8 lossy loop with its "
+    "from_utf8_unchecked (out of memory); curves beyond C16/C18; encode. " + ORACLE_NOTE,
+    "DESIGN.md §5 C01",
+    TECH + "; panic/UB freedom of each unit over fully symbolic numeric inputs",
+)
+
 NOT_APPLICABLE = {
     "C02": "whole-map text round trip needs Display/FromStr of floats and hundreds of map-shaped symbolic text bytes; Beatmap::encode alone exhausts 28 GB inside core::fmt under CBMC (DESIGN.md §5 C02, §7)",
     "C04": "oracle is the parser applied to encoder output (map-shaped text with printed floats); even the path-serialisation clause needs >= 12 symbolic text bytes through nested splits, beyond the measured budget (DESIGN.md §5 C04, §7)",
